@@ -24,6 +24,14 @@ ENV = dict(os.environ)
 ENV.update({"CARGO_NET_OFFLINE": "true", "CARGO_TARGET_DIR": TARGET, "RUST_BACKTRACE": "0"})
 
 
+class HangFound(Exception):
+    """The implementation did not return on one case within the watchdog (case line attached)."""
+
+    def __init__(self, case, prog):
+        Exception.__init__(self, "hang on %s" % case)
+        self.case, self.prog = case, prog
+
+
 class MachineryError(Exception):
     """The machinery could not run (e.g. /repo does not compile): exit code 2, never a violation."""
 
@@ -249,7 +257,13 @@ def read_lines(path):
 
 
 def run_prog(prog, casefile, outfile, timeout=3000, env=None):
+    if os.path.exists(outfile + ".hang"):
+        os.remove(outfile + ".hang")
     rc, out = sh([prog, casefile, outfile], timeout=timeout, env=env)
+    if rc == 3 and os.path.exists(outfile + ".hang"):
+        k = int(open(outfile + ".hang").read().strip())
+        lines = [l for l in read_lines(casefile) if l and not l.startswith("#")]
+        raise HangFound(lines[k - 1] if 0 < k <= len(lines) else "?", prog)
     if rc != 0:
         raise MachineryError("%s failed on %s: %s" % (prog, casefile, out[-2000:]))
 
